@@ -53,3 +53,23 @@ Definition dispatch (d : denum) (tag : option string) : outcome :=
   end.
 
 Definition tags_of (d : denum) : list string := flat_map snd (arms d).
+
+(* ---------- implicit mapping from const-valued tag properties ---------- *)
+(* schema_registry.rs synthesize_implicit_mappings + effective_mapping: the union's reference members, in order;
+   consts gives, for a schema name, None when the schema does not exist, Some None when its tag property has no
+   string const, Some (Some v) otherwise.  Any failure (missing schema, no const, duplicate value) gives up. *)
+Fixpoint synth_acc (members : list string) (consts : string -> option (option string)) (seen : list string)
+  (acc : list (string * string)) : option (list (string * string)) :=
+  match members with
+  | [] => Some acc
+  | m :: r =>
+      match consts m with
+      | Some (Some v) => if Str.mem v seen then None else synth_acc r consts (v :: seen) (acc ++ [(v, m)])
+      | _ => None
+      end
+  end.
+Definition synth (members : list string) (consts : string -> option (option string)) : option mapping :=
+  match members with
+  | [] => None
+  | _ => synth_acc members consts [] []
+  end.
